@@ -14,7 +14,7 @@ from ._pipes import PipeScenario, JoinScenario, flat, needs_clock, parse
 
 MOD = __name__
 
-PASS_THROUGH = ("map", "filter", "flatten", "flatten2", "pluck", "accumulate", "accumulate_nostart", "unique", "slice", "sliding_window",
+PASS_THROUGH = ("map", "filter", "flatten", "flatten2", "flatten3", "pluck", "accumulate", "accumulate_nostart", "unique", "slice", "sliding_window",
                 "starmap", "union", "partition_unique", "accumulate_ws", "accumulate_ws_nostart", "pluck_list", "unique_list", "stream")
 BUFFERING = ("buffer", "delay", "latest", "collect", "timed_window", "timed_window_unique", "map_async", "map_async_eager", "map_async_raisecall")
 # (rate_limit is not one of them: its update() sleeps and then awaits its consumer, so an emit through it covers the consumer)
@@ -146,6 +146,8 @@ class Chain(PipeScenario):
                 got = sorted(x for x in flat(self.delivered()) if not isinstance(x, str))
                 if "flatten2" in names:
                     got = sorted(set(got)) if got == sorted(list(set(got)) * 2) else got
+                if "flatten3" in names:
+                    got = sorted(set(got)) if got == sorted(list(set(got)) * 3) else got
                 if got != sorted(self.emitted()):
                     return Violation("queued-at-end", site, "", dict(emitted=self.emitted(), delivered=self.delivered()))
             if sorted(map(repr, self.finished())) != sorted(map(repr, self.delivered())):
@@ -345,6 +347,9 @@ def plan(ctx):
     for mode in ("await", "burst"):
         jobs.append((("chain", "map_async_raisecall:1", "future", mode, 3, 1), 1))
         jobs.append((("chain", "map_async_raisecall:2", "sync", mode, 4, 1), 1 if T else 0))
+    # a batch of three pieces behind flatten, every order in which their consumers finish
+    jobs.append((("chain", "flatten3", "future", "await", 2, 1), 2 if T else 1))
+    jobs.append((("chain", "flatten3", "native", "await", 2, 1), 1))
     for nd in ("", "map", "flatten2"):
         for kind in (("future", "native", "gen") if T else ("future", "native")):
             jobs.append((("fanout", nd, kind, "await", 2, ), 1))
